@@ -39,7 +39,7 @@ class C01(Property):
 
     def gen(self, rng, tier):
         cases = []
-        n = 2500 if tier == "quick" else 100000
+        n = 2500 if tier == "quick" else 60000
         for i in range(n):
             tag, data = file_case(rng, tier)
             h = hexs(data)
@@ -52,7 +52,12 @@ class C01(Property):
             cases.append(Case("total " + hexs(d), corr=False, tags=("bundled",)))
             cases.append(Case("enc " + hexs(d), prop=False, tags=("bundled",)))
             # truncations at every length of the small files (thorough) / sampled (quick)
-            step = max(1, len(d) // (40 if tier == "quick" else len(d)))
+            # truncations: sampled in the quick tier; every length of the small files and 400 sampled lengths of the
+            # large ones in the thorough tier
+            if tier == "quick":
+                step = max(1, len(d) // 40)
+            else:
+                step = 1 if len(d) <= 6000 else max(1, len(d) // 400)
             for k in range(0, len(d), step):
                 cases.append(Case("total " + hexs(d[:k]), corr=False, tags=("truncate",)))
         return cases
